@@ -2,7 +2,7 @@
 import re
 from engines import kinds_in_type, kind_of_segment, KIND_FIELDS, KIND_FIELD_OWNERS
 from engines import check_required_steps
-from engines import check_complete_iteration
+from engines import check_complete_iteration, filter_guard_calls, positive_edges
 from prov import Prov, params_of, field_names
 from props.shared import membership_sites, term_fields, reductions, path_reduction_key
 
@@ -58,8 +58,20 @@ def run(ck, prog, ctx):
                                                                  ": the term's own id is missing, so a %s root itself is not recognised (is_modifier() is true for it)" % s["root"]),
               where=b.where(s["term"].line))
     ck.floor("SIBLING", "modifier/category membership sites", len(sites), 3)
+    sub0 = prog.body(SUB)
+    helpers_of_sub = set()
+    if sub0 is not None:
+        for fb_ in prog.family(sub0):
+            for _, t_ in fb_.calls():
+                tg_ = prog.bodies.get(t_.callee.res) if t_.callee.res else None
+                if tg_ is not None and tg_.file == sub0.file and tg_.kind in ("Fn", "AssocFn") and tg_.vis != "public":
+                    helpers_of_sub.add(tg_.short)
     for need in ("HpoTerm::<'a>::is_modifier", "HpoTerm::<'a>::categories", "Ontology::sub_ontology"):
-        ck.ob("SIBLING", "site-present/" + need, need in owners, "membership predicate located in %s" % need if need in owners else "coverage-floor: no membership test found in %s" % need)
+        present = need in owners or (need == "Ontology::sub_ontology" and bool(owners & helpers_of_sub))
+        if not present and need == "Ontology::sub_ontology":
+            ck.undecided("SIBLING", "site-present/" + need, "no modifier membership test located in sub_ontology or its private helpers (different idiom?)")
+            continue
+        ck.ob("SIBLING", "site-present/" + need, present, "membership predicate located in %s" % need if present else "coverage-floor: no membership test found in %s" % need)
 
     # ------------------------------------------------------------------ KIND on the re-annotation loops
     sub = prog.body(SUB)
@@ -98,7 +110,20 @@ def run(ck, prog, ctx):
                 neg = any(a[0] == "op" and a[1] == "Not" for a in at)
                 if false_t and not neg and fb.edge_dominates((gbi, false_t[0]), bi):
                     guards.append((ks, filtered, x))
-            if not guards:
+            helper_guard = None
+            for gbi, gt in fb.calls():
+                tgh = prog.bodies.get(gt.callee.res) if gt.callee.res else None
+                if tgh is None or tgh.kind not in ("Fn", "AssocFn") or tgh.file != fb.file or "Builder" in (gt.callee.res or ""):
+                    continue
+                if any(fb.edge_dominates(e, bi) for e in positive_edges(fb, pvn, gbi)):
+                    ak = set()
+                    for a_ in gt.args:
+                        ak |= {k for k, _ in atom_kinds(pv.of_operand(fb, a_))}
+                    if ak == {K}:
+                        helper_guard = gt
+            if not guards and helper_guard is not None:
+                ck.undecided("KIND", "guard/sub_ontology/%s" % m, "%s is guarded by the result of the private helper %s (which decides from the %s record's terms): the helper's test is not classified" % (m, (helper_guard.callee.res or "").rsplit("::", 1)[-1], K), where=fb.where(t.line))
+            elif not guards:
                 ck.ob("KIND", "guard/sub_ontology/%s" % m, False, "%s is not guarded by a non-empty phenotype intersection: records annotated only to modifier terms are kept" % m, where=fb.where(t.line))
             else:
                 ks, filtered, x = guards[-1]
@@ -183,6 +208,9 @@ def run(ck, prog, ctx):
                     true_t = [tg for v, tg in x.targets if v == 1] or ([x.otherwise] if vals == [0] else [])
                     if true_t and fb.edge_dominates((gbi, true_t[0]), bi):
                         g = True
+        if not g:
+            # `for parent in term.parents().iter().filter(|p| ids.contains(p))`: the guard is the filter of the pipeline
+            g = bool(filter_guard_calls(prog, pv, pa, lambda c: c.res == "term::group::HpoGroup::contains" or (c.method == "contains" and "HashSet" in (c.name or "") + (c.def_args or ""))))
         ck.ob("ROLE", "links/add_parent/%d/guard" % n, g, "the link is %s" % ("only created when the parent is a retained term" if g else "not guarded by membership of the parent in the retained ids (dangling parent)"), where=fb.where(t.line))
 
     # ---- the retained chain is a SHORTEST one: path_to_ancestor reduces its candidate paths by length (anchor 2 of the property)
